@@ -1249,3 +1249,18 @@ package rockredis
 //@   ensures ghost(collexpired, db) == 1 ==> result0 == 0 && ghost(expirecalls, db.expiration) == old(ghost(expirecalls, db.expiration))
 //@   ensures ghost(expirecalls, db.expiration) != old(ghost(expirecalls, db.expiration)) ==> ghost(expireat, db.expiration) == 0 && ghost(collexpired, db) != 1
 //@   modifies ghost(expireat, db.expiration), ghost(expirecalls, db.expiration)
+
+// store reads used by the merge handlers of package node (C11 no-panic contracts there): not under contract
+// themselves: arbitrary results, no caller-visible writes
+//@ property C11
+//@ func (db *RockDB) HGetAll(key []byte) (int64, []common.KVRecordRet, error)
+//@   trusted read path not under contract: arbitrary result; writes nothing a caller in package node can observe
+//@ func (db *RockDB) HGet(key []byte, field []byte) ([]byte, error)
+//@   trusted read path not under contract: arbitrary result; writes nothing a caller in package node can observe
+//@ func (db *RockDB) HMget(key []byte, args ...[]byte) ([][]byte, error)
+//@   trusted read path not under contract: arbitrary result; writes nothing a caller in package node can observe
+//@ func (db *RockDB) HsetIndexSearch(table []byte, field []byte, cond *IndexCondition, countOnly bool) (IndexPropertyDType, int64, []HIndexResp, error)
+//@   trusted read path not under contract: arbitrary result; writes nothing a caller in package node can observe
+//@ func (db *RockDB) FullScan(dataType common.DataType, cursor []byte, count int, match string) *common.FullScanResult
+//@   trusted every return of fullScanGenericUseBuffer / fullScanCommon is buildErrFullScanResult(...) or a composite literal address
+//@   ensures result != nil && fresh(result)
